@@ -174,8 +174,9 @@ Example c26_effect_statement_is :
 Proof. exact eq_refl. Qed.
 Print Assumptions c26_effect_statement_is.
 
-(* refuted twice: finding 0 (unsigned streaming-typed PUT /b1 runs PutBucketHandler) and
-   finding 1 (a POST policy upload signed by an identity that may only Read is written) *)
+(* refuted three times: finding 0 (unsigned streaming-typed PUT /b1 runs PutBucketHandler),
+   finding 1 (a POST policy upload signed by an identity that may only Read is written) and
+   finding 3 (a copy reads a source bucket its signer may not Read) *)
 Theorem c26_effect_refuted : ~ effect_implies_authorized_statement.
 Proof. exact effect_statement_false. Qed.
 Print Assumptions c26_effect_refuted.
@@ -198,17 +199,68 @@ Theorem c26_effect_refuted_finding1 :
 Proof. exact effect_refuted_1. Qed.
 Print Assumptions c26_effect_refuted_finding1.
 
-(* PARTIAL (strongest true statement): outside the two NARROWED trigger sets —
+(* finding 3: the right-hand side asks, for a copy (CopyObject / CopyObjectPart), Write on the
+   destination bucket AND Read on the bucket X-Amz-Copy-Source names; Auth and the copy handlers
+   only ever look at the destination.  writer1 (Write:b1, nothing on b2) copies b2/src into b1,
+   as an object and as a part. *)
+Example c26_effect_spec_is : forall ids r c e i,
+  effect_authorized_spec ids r c e i =
+  effect_authorized_spec0 ids r c e i &&
+  match copy_reads_source r e i with
+  | Some sb => authorized_spec ids (get_request_auth_type r) c ACTION_READ sb
+  | None => true
+  end.
+Proof. exact (fun _ _ _ _ _ => eq_refl). Qed.
+Print Assumptions c26_effect_spec_is.
+
+Theorem c26_effect_refuted_finding3 :
+  route_match witness_copy = Some COPY_OBJECT_IDX /\
+  (exists id, takes_effect witness_ids3 witness_copy wr1_claim env0 COPY_OBJECT_IDX = Some (Some id) /\
+              id_name id = "writer1" /\ can_do (id_actions id) ACTION_READ "b2" = false) /\
+  copy_reads_source witness_copy env0 COPY_OBJECT_IDX = Some "b2" /\
+  effect_authorized_spec0 witness_ids3 witness_copy wr1_claim env0 COPY_OBJECT_IDX = true /\
+  effect_authorized_spec witness_ids3 witness_copy wr1_claim env0 COPY_OBJECT_IDX = false /\
+  trigger0 witness_ids3 witness_copy wr1_claim COPY_OBJECT_IDX = false /\
+  trigger1 witness_ids3 witness_copy env0 COPY_OBJECT_IDX = false /\
+  trigger3 witness_ids3 witness_copy wr1_claim env0 COPY_OBJECT_IDX = true /\
+  route_match witness_copy_part = Some COPY_OBJECT_PART_IDX /\
+  copy_reads_source witness_copy_part env0 COPY_OBJECT_PART_IDX = Some "b2" /\
+  (exists id, takes_effect witness_ids3 witness_copy_part wr1_claim env0 COPY_OBJECT_PART_IDX = Some (Some id) /\ id_name id = "writer1") /\
+  effect_authorized_spec witness_ids3 witness_copy_part wr1_claim env0 COPY_OBJECT_PART_IDX = false /\
+  trigger3 witness_ids3 witness_copy_part wr1_claim env0 COPY_OBJECT_PART_IDX = true.
+Proof. exact effect_refuted_3. Qed.
+Print Assumptions c26_effect_refuted_finding3.
+
+(* ... and the failure is total: on a copy route the source plays no part in whether the request
+   goes on to the filer *)
+Theorem c26_copy_ignores_source_rights : forall ids r c e i w,
+  i = COPY_OBJECT_IDX \/ i = COPY_OBJECT_PART_IDX ->
+  takes_effect ids r c e i = Some w <-> route_decision ids r c i = Run w.
+Proof. exact copy_ignores_source_rights. Qed.
+Print Assumptions c26_copy_ignores_source_rights.
+
+(* PARTIAL (strongest true statement): outside the three NARROWED trigger sets —
    trigger0: bypass type on a route other than PutObject / PostPolicy (PutObjectPart: unless the
    seed signature is valid); trigger1: POST policy validly signed by an identity that may not
-   Write the bucket — a request that goes on to the filer is authorised.  In particular valid
-   streaming uploads and valid POST policy uploads are OUTSIDE the trigger sets. *)
+   Write the bucket; trigger3: a copy that is authorised to Write the destination, really reads
+   the source (the handler does not answer before) and whose signer may not Read the source
+   bucket — a request that goes on to the filer is authorised, for a copy on BOTH buckets.  In
+   particular valid streaming uploads, valid POST policy uploads and copies by an identity that
+   may Read the source are OUTSIDE the trigger sets. *)
 Theorem c26_effect_partial : forall ids r c e i w,
   ids <> [] -> route_match r = Some i -> takes_effect ids r c e i = Some w ->
-  trigger0 ids r c i = false -> trigger1 ids r e i = false ->
+  trigger0 ids r c i = false -> trigger1 ids r e i = false -> trigger3 ids r c e i = false ->
   effect_authorized_spec ids r c e i = true.
 Proof. exact effect_partial. Qed.
 Print Assumptions c26_effect_partial.
+
+(* the route-action half alone needs only the first two *)
+Theorem c26_effect_partial_destination : forall ids r c e i w,
+  ids <> [] -> route_match r = Some i -> takes_effect ids r c e i = Some w ->
+  trigger0 ids r c i = false -> trigger1 ids r e i = false ->
+  effect_authorized_spec0 ids r c e i = true.
+Proof. exact effect_partial0. Qed.
+Print Assumptions c26_effect_partial_destination.
 
 (* identity context handed to the handlers (finding 2): Auth sets s3-identity-id /
    s3-is-admin but never removes what the client sent *)
@@ -274,6 +326,21 @@ Example c26_effect_example :
   takes_effect ex_ids2 witness_post no_claim env0 POST_POLICY_IDX = None.
 Proof. exact effect_example. Qed.
 Print Assumptions c26_effect_example.
+
+(* the trigger3 hypothesis is satisfiable on a real copy: "rw" (Write:b1, Read:b2) copies b2/src
+   into b1 outside the trigger set and authorised; writer1's same copy is inside; a copy onto
+   itself reads nothing; a copy inside b1 reads b1 *)
+Example c26_copy_example :
+  trigger3 ex_ids3 witness_copy rw_claim env0 COPY_OBJECT_IDX = false /\
+  (exists id, takes_effect ex_ids3 witness_copy rw_claim env0 COPY_OBJECT_IDX = Some (Some id) /\ id_name id = "rw") /\
+  effect_authorized_spec ex_ids3 witness_copy rw_claim env0 COPY_OBJECT_IDX = true /\
+  trigger3 ex_ids3 witness_copy wr1_claim env0 COPY_OBJECT_IDX = true /\
+  copy_reads_source {| rq_method := "PUT"; rq_bucket := "b1"; rq_object := "o"; rq_query := [];
+                       rq_authz := None; rq_sha256 := ""; rq_ctype := ""; rq_copysrc := "/b1/o" |} env0 COPY_OBJECT_IDX = None /\
+  copy_reads_source {| rq_method := "PUT"; rq_bucket := "b1"; rq_object := "o"; rq_query := [];
+                       rq_authz := None; rq_sha256 := ""; rq_ctype := ""; rq_copysrc := "b1/other" |} env0 COPY_OBJECT_IDX = Some "b1".
+Proof. exact copy_example. Qed.
+Print Assumptions c26_copy_example.
 
 (* a policy document with an Allow and a Deny statement: grants exactly Read/List on b1 *)
 Example c26_policy_example :
